@@ -348,6 +348,8 @@ func allocated[T any](x T) bool { panic(0) }
 func isFresh[T any](x T) bool { panic(0) }
 func sortedStrings(a []string) bool { panic(0) }
 func permOf[T any](a, b []T) bool { panic(0) }
+func fst[A, B any](a A, b B) A { return a }
+func snd[A, B any](a A, b B) B { return b }
 `
 
 // qualifier used when printing types into the synthetic file of package pkg
